@@ -105,9 +105,10 @@ def encode_sequence(content, error=None, version=None, mode=None, mask=None,
         segs.add_segment(make_segment(chunk, mode=mode, encoding=encoding))
         return segs
 
-    def divide_into_chunks(data, num):
-        k, m = divmod(len(data), num)
-        return [data[i * k + min(i, m):(i + 1) * k + min(i + 1, m)] for i in range(num)]
+    def divide_into_chunks(data, num, char_size=1):
+        k, m = divmod(len(data) // char_size, num)
+        return [data[(i * k + min(i, m)) * char_size:((i + 1) * k + min(i + 1, m)) * char_size]
+                for i in range(num)]
 
     def calc_qrcode_bit_length(char_count, ver_range, mode, encoding=None,
                                is_eci=False, is_sa=False):
@@ -138,7 +139,7 @@ def encode_sequence(content, error=None, version=None, mode=None, mask=None,
         """\
         Returns the number of symbols for the provided version.
         """
-        length = len(content)
+        length = len(content) // char_size
         ver_range = version_range(version)
         bit_length = calc_qrcode_bit_length(length, ver_range, mode, encoding,
                                             is_eci=eci, is_sa=True)
@@ -181,17 +182,21 @@ def encode_sequence(content, error=None, version=None, mode=None, mask=None,
         raise ValueError('This function cannot handle more than one mode (yet). Sorry.')
     mode = segments.modes[0]  # CHANGE iff more than one mode is supported!
     # Creating one QR code failed or max_no is not None
-    if mode == consts.MODE_NUMERIC:
-        content = str(content)
-    if symbol_count is not None and len(content) < symbol_count:
+    # Convert the content into bytes: all symbols must use the same encoding
+    # and the parity data has to be calculated from the bytes of the message
+    content, length, encoding = data_to_bytes(content, encoding if mode != consts.MODE_HANZI
+                                              else consts.HANZI_ENCODING)
+    # Kanji and Hanzi characters must not be split
+    char_size = 2 if mode in (consts.MODE_KANJI, consts.MODE_HANZI) else 1
+    if symbol_count is not None and length // char_size < symbol_count:
         raise ValueError(f'The content is not long enough to be divided into {symbol_count} symbols')
-    sa_parity_data = calc_structured_append_parity(content)
+    sa_parity_data = reduce(xor, content)
     num_symbols = symbol_count or 16
     if version is not None:
         num_symbols = number_of_symbols_by_version(content, version, error, mode)
     if num_symbols > 16:
         raise DataOverflowError(f'The data does not fit into Structured Append version {version}')
-    chunks = divide_into_chunks(content, num_symbols)
+    chunks = divide_into_chunks(content, num_symbols, char_size)
     if symbol_count is not None:
         segments = one_item_segments(max(chunks, key=len), mode)
         version = find_version(segments, error, eci=eci, micro=False, is_sa=True)
